@@ -322,10 +322,12 @@ def gen_l2_program(rng, name_classes=None, n_ifaces=None, generic=None, error=No
     def fresh(classes=None):
         for _ in range(300):
             n = None
-            if pool and rng.random() < 0.3:
+            if pool and classes is None and rng.random() < 0.3:      # (kinds with a restricted name class keep it)
                 c = near(rng.choice(pool))
                 ck = "~" + c.replace("_", "").lower()
-                if c and c not in used and ck not in used and c not in RESERVED and c.strip("_") and not c[0].isdigit():
+                # (a corpus restricted to names whose wire form is the name itself keeps that restriction)
+                nf_ok = not (set(g.name_classes) <= set(NF_CLASSES)) or classify_name(c) == "nf"
+                if c and nf_ok and c not in used and ck not in used and c not in RESERVED and c.strip("_") and not c[0].isdigit():
                     used.add(c)
                     used.add(ck)
                     n = c
